@@ -224,8 +224,11 @@ def lockedHalf (pre : St) (ws : List String) (order : List Nat) : Option Op :=
   | ["labels", id, ls, force, mask] =>
     match get pre.served (natArg id) with
     | some sv =>
+      -- the request is a clone of the record it saw (state and flags included: they matter when the record
+      -- has been deleted in between and the "update" creates it anew)
       some (.labelsFrom { id := natArg id, addr := sv.md.addr, ver := some sv.md.ver, start := sv.md.start,
-                          labels := parseLabels ls } (force == "1") (natArg mask))
+                          labels := parseLabels ls, state := sv.md.state, destroyed := sv.md.destroyed }
+              (force == "1") (natArg mask))
     | none => parseOp ws order
   | ["check", mask] =>
     let cands := (servedIds pre).filter (buriable pre)
@@ -294,7 +297,9 @@ def step (d : DState) (opLine : String) (impl : String) : DState × StepOut :=
         let o2 := PdModel.StoreFsm.step d.model op2
         ({ model := o2.st, pre := pre' },
          { model := resStr o2.res ++ " ; " ++ dump o2.st (d.gw ++ o2.writes), fails := monitorGated d.pre ws i (directInFlight d.pend1 d.pend2) })
-    | none, none => (d, { model := "bad-op" })
+    | none, none =>
+      -- the implementation is ahead of the model (they disagreed before): keep judging what it reports
+      ({ d with pre := pre' }, { model := "bad-op", fails := monitorGated d.pre ws i })
   | _ =>
     match d.pend1, d.pend2 with
     | some _, none =>
@@ -309,8 +314,8 @@ def step (d : DState) (opLine : String) (impl : String) : DState × StepOut :=
           let o := PdModel.StoreFsm.step d.model op
           ({ d with model := o.st, pre := pre', gw := d.gw ++ o.writes },
            { model := resStr o.res ++ " ; " ++ dump o.st (d.gw ++ o.writes), fails := monitor d.pre ws i })
-    | some _, some _ => (d, { model := "bad-op" })
-    | none, some _ => (d, { model := "bad-op" })
+    | some _, some _ => ({ d with pre := pre' }, { model := "bad-op", fails := monitorGated d.pre ws i })
+    | none, some _ => ({ d with pre := pre' }, { model := "bad-op", fails := monitorGated d.pre ws i })
     | none, none =>
       match parseOp ws order with
       | none => (d, { model := "bad-op" })
